@@ -309,6 +309,44 @@ def run_case(acc, cseed, tmpdir):
                 len(d3.get("signatures", [])) != 1 or \
                 not verify_der(g1.pub65(sk).hex(), bytes.fromhex(d3["signatures"][0]), dg2):
             bad("key-run-creating-the-file-wrong", code=code, doc=str(d3)[:200])
+    # ---- the key given in another spelling (0x prefix, upper case) and keys whose hex
+    # form begins or ends with zero digits: the tool may turn a spelling down - but what it
+    # signs, it signs with the key those digits denote
+    if rng.random() < 0.5:
+        import ecdsa as _ec
+        o4 = os.path.join(tmpdir, "auth-keyspelling.json")
+        for k_ in range(3):
+            if os.path.exists(o4):
+                os.unlink(o4)
+            x = rng.getrandbits(rng.choice([256, 256, 248, 200])) % (_ec.SECP256k1.order - 1) + 1
+            z = rng.choice([0, 0, 4, 8, 12])
+            x = ((x >> z) << z) or 16
+            sk4 = _ec.SigningKey.from_secret_exponent(x, curve=_ec.SECP256k1)
+            d4 = x.to_bytes(32, "big").hex()
+            spelled = rng.choice(["0x" + d4, "0x" + d4, "0X" + d4, d4.upper(), "0x" + d4.upper(),
+                                  d4])
+            code, so = run_main(signapp.main, ["signapp.py", "key", "-o", o4, "-k", spelled,
+                                               "-a", app2, "-i", str(it2)])
+            acc.evaluations += 1
+            acc.count("key_spellings_checked")
+            h2 = ihex.expected_hash(areas2).hex()
+            t2 = "RSK_powHSM_signer_%s_iteration_%d" % (h2, it2)
+            dg2 = keccak256(b"\x19Ethereum Signed Message:\n" + str(len(t2)).encode() +
+                            t2.encode())
+            try:
+                d5 = json.load(open(o4))
+            except Exception:
+                d5 = None
+            if code != 0:
+                if d5 and d5.get("signatures"):
+                    bad("refused-key-spelling-left-a-signature", spelling=spelled[:6] + "..")
+                continue
+            acc.count("key_spellings_accepted")
+            sigs5 = (d5 or {}).get("signatures") or []
+            if len(sigs5) != 1 or not verify_der(g1.pub65(sk4).hex(), bytes.fromhex(sigs5[0]),
+                                                 dg2):
+                bad("signature-not-made-by-the-key-that-was-given",
+                    spelling=spelled[:4] + ".." + spelled[-6:], trailing_zero_bits=z)
     # manual addition: valid DER accepted, malformed refused and file untouched
     extra = g1.sign(g1.new_key(rng), b"x", rng).hex()
     code, so = run_main(signapp.main, ["signapp.py", "manual", "-o", out, "-g", extra])
